@@ -137,6 +137,16 @@ add("C09", "exploration",
     "Combination-rule values themselves are not judged; ties between equally specific entries may go either way.",
     "§4 C09")
 
-for _p in ["C06", "C07", "C12",
+add("C12", "exploration",
+    "bounded-exhaustive enumeration of sequences, line breakings and macro specifications against independent tables / tree arithmetic",
+    "All DNA/RNA strings of length 2-5 (6) and all protein letters at every position, through .fasta and .ig (linear and "
+    "circular) under every one of the 2^(L-1) line breakings; .txt name lists under every line breaking; -seq lists; gen_seq "
+    "with 9 macro shapes x all sequences of <=3 macros x connect records x terminal renamings x labels, written to .json and "
+    "read back through the reader gen_params uses. Expected names, numbering and edges come from independently transcribed "
+    "one-letter tables and closed-form balanced-tree edges.",
+    "Single-nucleotide sequences not judged; 0-based connect indices as implemented; the legacy 'links' JSON key (needs an older networkx) is not exercised.",
+    "§4 C12")
+
+for _p in ["C06", "C07",
            "C15", "C18", "C20"]:
     NOT_YET[_p] = "check under construction in this session (bounded exhaustive exploration applies; see DESIGN.md)"
